@@ -236,7 +236,14 @@ where
                 debug!(
                     channel_filter_key = %key,
                     "All channels dropped");
-                self_.key_counts.remove(&key);
+                // Only forget the key if its tracker is really gone: a channel with the same key
+                // may have arrived since this notification was sent, in which case the entry now
+                // belongs to a new, live tracker and must keep counting its channels.
+                if let Entry::Occupied(entry) = self_.key_counts.entry(key) {
+                    if entry.get().strong_count() == 0 {
+                        entry.remove();
+                    }
+                }
                 self_.key_counts.compact(0.1);
                 Poll::Ready(())
             }
